@@ -1007,7 +1007,9 @@ int htp_connp_req_data(htp_connp_t *connp, const htp_time_t *timestamp, const vo
     }
 
     // Sanity check: we must have a transaction pointer if the state is not IDLE (no inbound transaction)
-    if ((connp->in_tx == NULL)&&(connp->in_state != htp_connp_REQ_IDLE)) {
+    // (Not in tunnel mode: after an HTTP/0.9-style request there is no inbound transaction any more,
+    // and tunnel data is to be reported as HTP_STREAM_TUNNEL below, not as an error.)
+    if ((connp->in_tx == NULL)&&(connp->in_state != htp_connp_REQ_IDLE)&&(connp->in_status != HTP_STREAM_TUNNEL)) {
         connp->in_status = HTP_STREAM_ERROR;
 
         htp_log(connp, HTP_LOG_MARK, HTP_LOG_ERROR, 0, "Missing inbound transaction data");
